@@ -72,6 +72,7 @@ def warmup(U, tier):
         s["cls"] = _orbit_cls(s["fam"])
         g.correct()
         s["T0"] = float(g.period)
+        s["xs"] = np.array(g.initial_state, float)
     # JIT warm-up on both universes so that forked workers inherit compiled integrators
     for uni in ("sys_real", "sys_twin"):
         for sysname in sorted({SPECS[i]["sys"] for i in ACTIVE}):
@@ -88,8 +89,10 @@ def warmup(U, tier):
 
 
 # --------------------------------------------------------------------------- model / twin
-def new_model(spec_i):
+def new_model(spec_i, corrected: bool = False):
     s = SPECS[spec_i]
+    if corrected:   # an orbit object constructed from a converged state, with its period set
+        return {"spec": spec_i, "x": s["xs"].copy(), "T": s["T0"], "amp": None, "opts": None, "lastprop": None}
     return {"spec": spec_i, "x": s["x0"].copy(), "T": None, "amp": None, "opts": None, "lastprop": None}
 
 
@@ -217,7 +220,7 @@ def run_history(ctx: RunCtx, U) -> None:
             and SPECS[objs[0]["model"]["spec"]]["point"] == SPECS[si]["point"]
         s = SPECS[si]
         lp = objs[0]["lp"] if share else _lp_cls(s["point"])(U["sys_real"][s["sys"]])
-        model = new_model(si)
+        model = new_model(si, corrected=bool(ds.choose(2, f"orbit[{j}].starts_corrected", (0.6, 0.4))))
         objs.append({"lp": lp, "model": model, "real": build(model, lp), "reloaded": False, "post_reload_integrations": 0, "shared": share})
     log.add("objects", [(SPECS[o["model"]["spec"]]["name"], o["shared"]) for o in objs])
     hist: list = []
@@ -455,12 +458,12 @@ def enumeration(max_len: int):
     if max_len < 3:
         core = [ALPHABET.index(op) + 1 for op in CORE3]
         for seq in itertools.product(core, repeat=3):
-            yield [0, 0, 0] + list(seq) + [0]
+            yield [0, 0, 0, 1] + list(seq) + [0]     # on an orbit that starts corrected, with its period set
     idx = [ALPHABET.index(op) + 1 for op in REDUCED]
     # prefix: machine=orbit(0), n_objects=1 (0), spec index 0
     for L in range(1, max_len + 1):
         for seq in itertools.product(idx, repeat=L):
-            vals = [0, 0, 0]
+            vals = [0, 0, 0, 0]
             for k in seq:
                 vals.append(k)
                 if ALPHABET[k - 1][0] == "save_fault":
